@@ -32,6 +32,7 @@ CLOSED table  Python construct -> model term   (library calls are table entries:
   functools.partial(_constraint_func, sign=k)           -> the row with sign := k
   _GoalConstraint(_, row, 0.0, np.inf, _)               -> decide (0 <= row)
   bounds[v.name()] = (0.0, np.inf)                      -> decide (0 <= a)
+  cls._linear_coefficients[k1][k2] (lookup) / .setdefault(k1, {})[k2] = lines (store) -> cache key [k1, k2]
   xs[-1] = c                                            -> setLast xs c
   np.array(xs)                                          -> xs
   v ** order (array)                                    -> v.map (. ^ r)
@@ -324,6 +325,30 @@ def _linorder():
     k = next((i for i, st in enumerate(body) if isinstance(st, ast.While)), None)
     if k is None:
         raise TranslationError("_get_linear_coefficients: root-finder loop not found")
+    # cache: `return cls._linear_coefficients[K1][K2]` before the loop, `.setdefault(K1, {})[K2] = lines` after
+    def key2(node):
+        if isinstance(node, ast.Subscript) and isinstance(node.slice, ast.Name):
+            inner = node.value
+            if isinstance(inner, ast.Subscript) and isinstance(inner.slice, ast.Name) \
+                    and ast.dump(inner.value) == ast.dump(ast.parse("cls._linear_coefficients", mode="eval").body):
+                return [inner.slice.id, node.slice.id]
+            if isinstance(inner, ast.Call) and isinstance(inner.func, ast.Attribute) and inner.func.attr == "setdefault" \
+                    and ast.dump(inner.func.value) == ast.dump(ast.parse("cls._linear_coefficients", mode="eval").body) \
+                    and len(inner.args) == 2 and isinstance(inner.args[0], ast.Name) \
+                    and isinstance(inner.args[1], ast.Dict) and not inner.args[1].keys:
+                return [inner.args[0].id, node.slice.id]
+        return None
+
+    lookups = [key2(n.value) for st in body[:k] for n in ast.walk(st) if isinstance(n, ast.Return)]
+    stores = [key2(st.targets[0]) for st in body[k + 1:] if isinstance(st, ast.Assign) and len(st.targets) == 1
+              and "_linear_coefficients" in ast.dump(st.targets[0])]
+    if len(lookups) != 1 or lookups[0] is None or len(stores) != 1 or stores[0] is None:
+        raise TranslationError("_get_linear_coefficients: cache lookup / store not of the form "
+                               "cls._linear_coefficients[k1][k2] / .setdefault(k1, {})[k2] = lines")
+    if any(kk not in ("order", "eps", "kind") for kk in lookups[0] + stores[0]):
+        raise TranslationError("_get_linear_coefficients: cache key is not built from the arguments")
+    key_lookup = "[%s]" % ", ".join('"%s"' % x for x in lookups[0])
+    key_store = "[%s]" % ", ".join('"%s"' % x for x in stores[0])
     A = _Arr()
     A.env["xs"] = ("xs", "arr")  # knots produced by the root-finder loop (abstract)
     table = None
@@ -339,11 +364,8 @@ def _linorder():
             if isinstance(tg, ast.Name):
                 A.env[tg.id] = A.expr(st.value)
                 continue
-        if isinstance(st, ast.Expr) and isinstance(st.value, ast.Call) and "setdefault" in ast.dump(st.value):
-            # cls._linear_coefficients.setdefault(eps, {})[order] = lines  (cache)
-            continue
         if isinstance(st, ast.Assign) and "setdefault" in ast.dump(st.targets[0]):
-            continue
+            continue  # the cache store: its key is translated above
         if isinstance(st, ast.Return):
             table = A.expr(st.value)
             continue
@@ -464,6 +486,13 @@ theorem linearTableGen_eq_model (r : Nat) (xs : List Rat) :
     linearTableGen r xs = C17.coeffs r (C17.setLast xs 1) := by
   rw [← C17.coeffsCode_eq]; rfl
 
+/-- cache key of the lookup before and of the store after the computation -/
+def linCacheLookupKeyGen : List String := %s
+def linCacheStoreKeyGen : List String := %s
+
+theorem linCacheKeyGen_eq_model :
+    linCacheLookupKeyGen = C17.linCacheKey ∧ linCacheStoreKeyGen = C17.linCacheKey := by decide
+
 def linRowGen (a b eps lin : Rat) : Bool := decide (0 ≤ %s)
 
 theorem linRowGen_eq_model (a b eps lin : Rat) : linRowGen a b eps lin = C17.linRowFeasible (a, b) eps lin := by
@@ -487,10 +516,11 @@ theorem linObjectiveGen_eq_model (w lin nActive : Rat) : linObjectiveGen w lin n
   ring
 
 end RtcVerif.Gen
-""" % (table[0], row, row, n_then, n_else, obj)
+""" % (table[0], key_lookup, key_store, row, row, n_then, n_else, obj)
     _write("C17LinOrder", text)
     return ("RtcVerif.Gen.C17LinOrder", "RtcVerif.Gen",
-            ["linearTableGen_eq_model", "linRowGen_eq_model", "linNActiveGen_eq_model", "linObjectiveGen_eq_model"])
+            ["linearTableGen_eq_model", "linCacheKeyGen_eq_model", "linRowGen_eq_model", "linNActiveGen_eq_model",
+             "linObjectiveGen_eq_model"])
 
 
 # ---------------------------------------------------------------------------------------------
